@@ -738,6 +738,20 @@ Definition skipped (bad : list ierr) (file : N) (idx : nat) : bool :=
 
 (* generate_recurse: the files spliced into the tree, in order (pre-order);
    None = fuel exhausted (the real function would recurse for ever). *)
+(* the loop over a file's include statements: statement i of file `id` is
+   skipped when it was reported; `gen` assembles an included file *)
+Fixpoint gen_children (gen : N -> option (list N)) (bad : list ierr) (id : N) (l : list N) (i : nat)
+    : option (list N) :=
+  match l with
+  | [] => Some []
+  | c :: r =>
+      if skipped bad id i then gen_children gen bad id r (S i)
+      else match gen c, gen_children gen bad id r (S i) with
+           | Some a, Some b => Some (a ++ b)
+           | _, _ => None
+           end
+  end.
+
 Fixpoint generate (fuel : nat) (g : graph) (bad : list ierr) (id : N) : option (list N) :=
   match fuel with
   | O => None
@@ -745,16 +759,7 @@ Fixpoint generate (fuel : nat) (g : graph) (bad : list ierr) (id : N) : option (
       match edges_of g id with
       | None => Some [id]
       | Some es =>
-          match (fix go (l : list N) (i : nat) : option (list N) :=
-                   match l with
-                   | [] => Some []
-                   | c :: r =>
-                       if skipped bad id i then go r (S i)
-                       else match generate f g bad c, go r (S i) with
-                            | Some a, Some b => Some (a ++ b)
-                            | _, _ => None
-                            end
-                   end) es 0 with
+          match gen_children (generate f g bad) bad id es 0 with
           | Some l => Some (id :: l)
           | None => None
           end
